@@ -44,7 +44,7 @@ def sibling_ir(ir):
     that remembers a rendering by type name and python value confuses the two schemas."""
     import copy
 
-    sib = copy.deepcopy(ir)
+    sib = S.clone(ir)
     rename = {}
     for t in sib.types.values():
         if t.kind == "enum" and getattr(t, "coded", False) and len(t.values) >= 2:
